@@ -268,6 +268,9 @@ func c13CheckItem(env *core.Env, it c13Item, target string) {
 	if target == "String" && it.Class == "fhir-gen" && it.M.Kind == "Unknown" && len(to.Items) == 1 && to.Items[0].K == "Boolean" && to.Items[0].T == "false" {
 		if _, isMsg := it.Val.(proto.Message); isMsg && !gen.IsPrimitive(it.Val.(proto.Message).ProtoReflect().Descriptor()) {
 			env.Violatef("C13/Complex->String/unconvertible/value-instead-of-empty:Boolean(false)", "%s.toString() returned the Boolean false", desc)
+			if conv.Bool3() != "false" {
+				env.Violatef("C13/Complex->String/convertsTo-inconsistent", "%s: toString() yields no String, but convertsToString() = %s", desc, trunc(conv.Short(), 60))
+			}
 			return
 		}
 	}
